@@ -141,7 +141,11 @@ extern "C" void harness_c23_div()
     VERIF_END();
 }
 // factorisation: factors multiply back to the monic input, are monic and irreducible (degree <= 3: no roots)
-extern "C" void harness_c23_factor()
+static void factor_body();
+extern "C" void harness_c23_factor() { factor_body(); }
+// the same check under a second set of bounds (higher degree over the smallest fields)
+extern "C" void harness_c23_factor_deg3() { factor_body(); }
+static void factor_body()
 {
     P = pick_p();
     unsigned na = 2 + (unsigned)verif_choice("na", verif_param("fmax", 2)); // degree 1..2 (3)
@@ -152,8 +156,7 @@ extern "C" void harness_c23_factor()
     integer_class lc;
     GaloisFieldDict M;
     A.gf_monic(lc, outArg(M));
-    int alg = (int)verif_choice("alg", 2);
-    std::pair<integer_class, std::set<std::pair<GaloisFieldDict, unsigned>, GaloisFieldDict::DictLess>> f = alg ? A.gf_factor() : A.gf_factor();
+    std::pair<integer_class, std::set<std::pair<GaloisFieldDict, unsigned>, GaloisFieldDict::DictLess>> f = A.gf_factor();
     verif_assert(f.first == lc, "factorisation returns the leading coefficient");
     Vec prod = {integer_class(1)};
     for (auto &fm : f.second) {
